@@ -599,5 +599,51 @@ pub fn all_mutants(p: &Program) -> Vec<Mutant> {
         }
         _ => None,
     });
+    // 20 the same covariable passed for two consumer parameters of different types: whichever of
+    // the two uses is ill-typed (the first or the second), the call must be rejected
+    {
+        let other = match p.types.iter().find(|d| !d.codata && !d.xtors.is_empty()) {
+            Some(d) => Ty::Named(d.name.clone(), d.params.iter().map(|_| Ty::I64).collect()),
+            None => Ty::I64,
+        };
+        if other != Ty::I64 && !p.defs.iter().any(|d| d.name.starts_with("zz_two")) {
+            for wrong_first in [false, true] {
+                let mut q = p.clone();
+                let (t1, t2) = if wrong_first { (other.clone(), Ty::I64) } else { (Ty::I64, other.clone()) };
+                let (body_k, _) = if wrong_first { ("h", "k") } else { ("k", "h") };
+                q.defs.push(Def {
+                    name: "zz_two".into(),
+                    params: vec![
+                        Param { name: "n".into(), cns: false, ty: Ty::I64 },
+                        Param { name: "k".into(), cns: true, ty: t1 },
+                        Param { name: "h".into(), cns: true, ty: t2 },
+                    ],
+                    ret: Ty::I64,
+                    body: Tm::Goto { name: body_k.into(), arg: Box::new(Tm::Var("n".into())) },
+                });
+                q.defs.push(Def {
+                    name: "zz_twice".into(),
+                    params: vec![Param { name: "n".into(), cns: false, ty: Ty::I64 }],
+                    ret: Ty::I64,
+                    body: Tm::Label {
+                        name: "zk".into(),
+                        body: Box::new(Tm::Call {
+                            name: "zz_two".into(),
+                            args: vec![Arg::Tm { t: Tm::Var("n".into()), lazy: false }, Arg::Covar("zk".into()), Arg::Covar("zk".into())],
+                        }),
+                    },
+                });
+                q.order.clear();
+                out.push(Mutant {
+                    class: "20-covariable-twice-at-different-types",
+                    what: format!(
+                        "covariable zk: cns i64 passed for two consumer parameters of different types; the {} use is ill-typed",
+                        if wrong_first { "first" } else { "second" }
+                    ),
+                    prog: q,
+                });
+            }
+        }
+    }
     out
 }
